@@ -18,6 +18,7 @@ if envstr("VF_KEYS", ""):
     KEYS = envstr("VF_KEYS", "").split(",")
 KI = envint("VF_KI", 0)
 KI2 = envint("VF_KI2", 1)
+QPRE = envstr("VF_QPRE", "")                # concrete pairs in front of the symbolic ones ("k=v&")
 ENTRY = envstr("VF_ENTRY", "string")        # "string": Sid(base?query) ; "get_with": base.get_with(query=..)
 
 
@@ -59,7 +60,7 @@ def apply1(v: str) -> bool:
     post: _
     """
     base = Sid(BASE)
-    q = KEYS[KI] + "=" + v
+    q = QPRE + KEYS[KI] + "=" + v
     return _check(base, q, _apply(base, q))
 
 
@@ -70,7 +71,7 @@ def apply2(v: str, w: str) -> bool:
     post: _
     """
     base = Sid(BASE)
-    q = KEYS[KI] + "=" + v + "&" + KEYS[KI2] + "=" + w
+    q = QPRE + KEYS[KI] + "=" + v + "&" + KEYS[KI2] + "=" + w
     return _check(base, q, _apply(base, q))
 
 
